@@ -250,6 +250,13 @@ def check_samplers(rep, ws):
     tu.add('w_hollow3', 'Vec3<float>& o, Rand48& r', 'o = hollowSphereRand<Vec3<float> >(r);')
     tu.add('w_gauss', 'float& o, Rand48& r', 'o = gaussRand(r);')
     tu.add('w_solid2', 'Vec2<double>& o, Rand32& r', 'o = solidSphereRand<Vec2<double> >(r);')
+    extra = []
+    for d_ in (2, 3, 4):
+        for e_, ty_, sz_ in (('float', 'float', 4), ('double', 'double', 8)):
+            if (d_, e_) == (3, 'float'): continue
+            nm_ = 'w_hollow%d%s' % (d_, e_[0])
+            tu.add(nm_, 'Vec%d<%s>& o, Rand48& r' % (d_, e_), 'o = hollowSphereRand<Vec%d<%s> >(r);' % (d_, e_))
+            extra.append((nm_, d_, ty_, sz_, 'hollow', 'hollowSphereRand<V%d%s>' % (d_, e_[0])))
     where = 'src/Imath/ImathRandom.h'
     try:
         bc = ws.compile(tu.name, tu.source())
@@ -257,8 +264,10 @@ def check_samplers(rep, ws):
     except build.BuildError as e:
         rep.ob('samplers', 'R18.range', UNDECIDED, str(e)[:300], where); return
     I = vg.Interp(mod)
-    for nm, n, ty, sz, kind in (('w_solid3', 3, 'float', 4, 'solid'), ('w_solid2', 2, 'double', 8, 'solid'), ('w_hollow3', 3, 'float', 4, 'hollow'), ('w_gauss', 1, 'float', 4, 'gauss')):
-        oid = {'w_solid3': 'solidSphereRand<V3f>', 'w_solid2': 'solidSphereRand<V2d>', 'w_hollow3': 'hollowSphereRand<V3f>', 'w_gauss': 'gaussRand'}[nm]
+    names = {'w_solid3': 'solidSphereRand<V3f>', 'w_solid2': 'solidSphereRand<V2d>', 'w_hollow3': 'hollowSphereRand<V3f>', 'w_gauss': 'gaussRand'}
+    names.update({x[0]: x[5] for x in extra})
+    for nm, n, ty, sz, kind in [('w_solid3', 3, 'float', 4, 'solid'), ('w_solid2', 2, 'double', 8, 'solid'), ('w_hollow3', 3, 'float', 4, 'hollow'), ('w_gauss', 1, 'float', 4, 'gauss')] + [x[:5] for x in extra]:
+        oid = names[nm]
         try:
             r = I.run_loop_body(nm)
         except vg.Unsupported as e:
@@ -292,6 +301,7 @@ def check_samplers(rep, ws):
                 else:
                     L = c1[0].args[1]
                     if not all(o.op == 'fdiv' and o.args[1] is L for o in outs): bad = 'returned components are not v_i / length (%s)' % T.show(outs[0], 3)[:200]
+                    elif L.ty != ty or any(x.op in ('fptrunc', 'fpext') for x in (L, L.args[0] if L.args else L)): bad = 'the length the components are divided by is not computed in the element type %s (%s)' % (ty, T.show(L, 2)[:80])
             elif kind == 'gauss':
                 c1 = [c for c, v in lits if c.op == 'fcmp' and c.attr in ('ole', 'olt') and c.args[0].op == 'const' and T.const_value(c.args[0]) == 1 and v is False]
                 c0 = [c for c, v in lits if c.op == 'fcmp' and c.attr == 'oeq' and v is False and any(a.op == 'const' and T.const_value(a) == 0 for a in c.args)]
